@@ -19,7 +19,7 @@ BACKENDS = ('idn2', 'idn', 'idnkit')
 
 def domain_alphabet(tu, fname='is_ascii_domain'):
     consts, masks = scanex.function_constants([tu.fn(fname)])
-    reps, class_of, classes = scanex.byte_classes(consts, masks, DS.PREDICATE_SETS)
+    reps, class_of, classes = scanex.byte_classes(consts, masks, DS.PREDICATE_SETS, derived=scanex.derived_ops([tu.fn(fname)]))
     return reps, class_of, classes
 
 
